@@ -168,6 +168,24 @@ def check_pair(prop, pair, tier, keep):
             return res
     final = agb
     mode = pair.get("mode", "dfcc")
+    if pair.get("remove_body"):
+        # diagnostics/statistics callees whose bodies are irrelevant to the obligation: made bodyless (nondet result, no effect)
+        rgb = os.path.join(d, "r.gb")
+        r0 = os.path.join(d, "r0.gb")
+        cmd = ["goto-instrument"] + sum([["--remove-function-body", f] for f in pair["remove_body"]], []) + [agb, r0]
+        res["cmds"].append(" ".join(cmd))
+        rc, out, err, _ = run(cmd, 300, 8)
+        if rc == 0:
+            cmd = ["goto-instrument", "--generate-function-body", "^(" + "|".join(pair["remove_body"]) + ")$",
+                   "--generate-function-body-options", "nondet-return", r0, rgb]
+            res["cmds"].append(" ".join(cmd))
+            rc, out, err, _ = run(cmd, 300, 8)
+        if rc != 0:
+            res.update(status="error", reason="remove-function-body failed: " + (err or out)[-300:])
+            res["wall_s"] = time.time() - t0
+            return res
+        agb = rgb
+        final = rgb
     if mode == "dfcc":
         bgb = os.path.join(d, "b.gb")
         cmd = ["goto-instrument"]
@@ -236,7 +254,7 @@ def check_pair(prop, pair, tier, keep):
         cmd += ["--z3"]
         res["backend"] = "cbmc-6.11 SMT2 (z3 4.8.12)"
     res["cmds"].append(" ".join(cmd))
-    rc, out, err, dt = run(cmd, timeout, pair.get("mem_gb", 12))
+    rc, out, err, dt = run(cmd, timeout, pair.get("mem_gb", 6))
     res["solver_s"] = round(dt, 2)
     open(os.path.join(d, "cbmc.json"), "w").write(out)
     open(os.path.join(d, "cbmc.err"), "w").write(err)
@@ -318,7 +336,7 @@ def check_pair(prop, pair, tier, keep):
         for f in res["failed"][:3]:
             props += ["--property", f["id"]]
         cmd2 = cmd + ["--trace"] + props
-        rc2, out2, err2, _ = run(cmd2, timeout, pair.get("mem_gb", 12))
+        rc2, out2, err2, _ = run(cmd2, timeout, pair.get("mem_gb", 6))
         res["trace_inputs"] = {}
         res["trace_tail"] = []
         if rc2 is not None:
@@ -436,7 +454,7 @@ def main():
     tier = os.environ.get("VERIF_TIER", "quick")
     only = None
     keep = False
-    jobs = int(os.environ.get("VC_JOBS", "16"))
+    jobs = int(os.environ.get("VC_JOBS", "9"))
     i = 1
     while i < len(args):
         if args[i] in ("quick", "thorough"):
@@ -484,8 +502,12 @@ def main():
                     violations.append((r, f, oid))
         elif r["status"] != "ok":
             undecided.append(r)
+    seen_kf = set()
     for k, oid in known_hits:
-        log("KNOWN-FINDING: property=%s %s (%s)" % (prop, k["what"], oid))
+        if k["id"] in seen_kf:
+            continue
+        seen_kf.add(k["id"])
+        log("KNOWN-FINDING: property=%s %s [%s; obligation %s]" % (prop, k["what"], k["id"], oid))
     seen = set()
     nviol = 0
     if violations:
@@ -516,7 +538,8 @@ def main():
         log("UNDECIDED property=%s pair=%s status=%s reason=%s" % (prop, r["name"], r["status"], r["reason"][:400]))
     # evidence
     proof_labels = ("P", "PC", "RG")
-    ob = sum(r["obligations"] for r in results if r["label"] in proof_labels)
+    nknown = len(known_hits)
+    ob = sum(r["obligations"] for r in results if r["label"] in proof_labels) - nknown      # obligations of listed findings are reported separately
     dis = sum(r["discharged"] for r in results if r["label"] in proof_labels)
     bob = sum(r["obligations"] for r in results if r["label"] not in proof_labels)
     bdis = sum(r["discharged"] for r in results if r["label"] not in proof_labels)
@@ -546,7 +569,8 @@ def main():
             "vacuity": "each pair carries a VC_REACH marker (assert(0) after the call) that must FAIL; min obligation counts / required obligation ids per pair",
             "samples": samples[:12] or [{"pair": r["name"]} for r in results[:3]],
             "undecided_pairs": [r["name"] for r in undecided],
-            "known_findings_hit": [k["id"] for k, _ in known_hits],
+            "known_findings_hit": sorted(set(k["id"] for k, _ in known_hits)),
+            "known_finding_obligations_failed": nknown,
             "solver_s_total": round(sum(r["solver_s"] for r in results), 1),
             "explanation": getattr(mod, "EXPLANATION", ""),
         },
